@@ -45,7 +45,7 @@ def expr_rules(prefix: str, cols: list[str], free: int = 1):
 
 
 @functools.lru_cache(None)
-def exec_grammar(engine_extras: bool = False) -> Grammar:
+def exec_grammar(engine_extras: bool = False, opt_extras: bool = False) -> Grammar:
     rules = {}
     rules.update(expr_rules("s", ["a", "b"]))                      # single table x
     rules.update(expr_rules("j", ["x.a", "x.b", "y.b", "y.c"]))    # join context
@@ -120,10 +120,51 @@ def exec_grammar(engine_extras: bool = False) -> Grammar:
             A("intersect_all", 1, "SELECT a FROM x INTERSECT ALL SELECT c FROM y"),
             A("except_all", 1, "SELECT a FROM x EXCEPT ALL SELECT c FROM y"),
         ]
+    if opt_extras:
+        q += [
+            A("win.partition", 1, "SELECT a, SUM(b) OVER (PARTITION BY a) AS w FROM x"),
+            A("win.rownum", 1, "SELECT a, b, ROW_NUMBER() OVER (ORDER BY a, b) AS rn FROM x"),
+            A("win.derived_filter", 1, "SELECT s.a, s.w FROM (SELECT a, SUM(b) OVER (PARTITION BY a) AS w FROM x) AS s WHERE {sc_s}"),
+            A("win.derived_filter_w", 1, "SELECT s.a, s.w FROM (SELECT a, COUNT(*) OVER () AS w FROM x) AS s WHERE s.a = 1"),
+            A("any", 1, "SELECT a, b FROM x WHERE b = ANY (SELECT b FROM y)"),
+            A("any_gt", 1, "SELECT a, b FROM x WHERE b > ANY (SELECT b FROM y)"),
+            A("all_gt", 1, "SELECT a, b FROM x WHERE b > ALL (SELECT b FROM y)"),
+            A("derived_group", 1, "SELECT s.a, s.n FROM (SELECT a, COUNT(*) AS n FROM x GROUP BY a) AS s WHERE {sc_s}"),
+            A("derived_group_join", 1, "SELECT y.c, s.n FROM y {jk} (SELECT b, COUNT(*) AS n FROM x GROUP BY b) AS s ON y.b = s.b WHERE {jc_ys}"),
+            A("derived_distinct_filter", 1, "SELECT s.a FROM (SELECT DISTINCT a, b FROM x) AS s WHERE {sc_s}"),
+            A("derived_limit_filter", 1, "SELECT s.a, s.b FROM (SELECT a, b FROM x ORDER BY 1, 2 LIMIT 1) AS s WHERE {sc_s}"),
+            A("derived_offset_filter", 1, "SELECT s.a, s.b FROM (SELECT a, b FROM x ORDER BY 1, 2 LIMIT 2 OFFSET 1) AS s WHERE {sc_s}"),
+            A("derived_union_filter", 1, "SELECT s.a FROM (SELECT a FROM x UNION ALL SELECT c FROM y) AS s WHERE s.a = 1"),
+            A("derived_nested", 1, "SELECT s2.a FROM (SELECT s.a, s.b FROM (SELECT a, b FROM x WHERE {sc}) AS s WHERE s.b = 1) AS s2 WHERE s2.a = 1"),
+            A("derived_left_right", 1, "SELECT s.a, t.c FROM (SELECT a, b FROM x) AS s {jk} (SELECT b, c FROM y) AS t ON s.b = t.b WHERE {jc_st}"),
+            A("cte_twice_filter", 1, "WITH t AS (SELECT a, b FROM x) SELECT t1.a, t2.b FROM t AS t1 {jk} t AS t2 ON t1.b = t2.a WHERE t1.a = 1"),
+            A("cte_chain", 1, "WITH t AS (SELECT a, b FROM x WHERE {sc}), t2 AS (SELECT a FROM t WHERE b = 1) SELECT a FROM t2"),
+            A("cte_unused", 1, "WITH t AS (SELECT a FROM x) SELECT c FROM y"),
+            A("join_three", 1, "SELECT x.a, y.c, x2.b FROM x {jk} y ON x.b = y.b JOIN x AS x2 ON y.c = x2.a"),
+            A("join_unused", 1, "SELECT x.a FROM x LEFT JOIN (SELECT DISTINCT b FROM y) AS s ON x.b = s.b"),
+            A("join_unused_nodistinct", 1, "SELECT x.a FROM x LEFT JOIN y ON x.b = y.b"),
+            A("where_or_join", 1, "SELECT x.a, y.c FROM x {jk} y ON x.b = y.b WHERE x.a = 1 OR y.c = 1"),
+            A("in_correlated", 1, "SELECT a, b FROM x WHERE a IN (SELECT c FROM y WHERE y.b = x.b)"),
+            A("not_in_correlated", 1, "SELECT a, b FROM x WHERE a NOT IN (SELECT c FROM y WHERE y.b = x.b)"),
+            A("exists_or", 1, "SELECT a, b FROM x WHERE EXISTS (SELECT 1 FROM y WHERE y.b = x.b) OR a = 1"),
+            A("scalar_in_where_corr", 1, "SELECT a, b FROM x WHERE a > (SELECT COUNT(*) FROM y WHERE y.b = x.b)"),
+            A("scalar_sum_corr", 1, "SELECT a, b FROM x WHERE b = (SELECT SUM(c) FROM y WHERE y.b = x.b)"),
+            A("group_having_expr", 1, "SELECT a, SUM(b) AS s FROM x GROUP BY a HAVING SUM(b) > 1 OR a IS NULL"),
+            A("distinct_join", 1, "SELECT DISTINCT x.a FROM x {jk} y ON x.b = y.b"),
+        ]
+        rules.update(expr_rules_alias("sc_s", "s.a", "s.b") if False else {})
     rules.update({"q": q, "agg": agg, "on": on, "jk": jk, "order": order})
+    if opt_extras:
+        rules.update({
+            "sc_s": [A("d", 0, "s.a = 1"), A("s.b_null", 1, "s.a IS NULL"), A("s.gt", 1, "s.a > 1"), A("s.or", 1, "s.a = 1 OR s.a IS NULL"),
+                     A("s.in", 1, "s.a IN (1, NULL)"), A("s.not", 1, "NOT s.a = 1"), A("s.neq", 1, "s.a <> 2")],
+            "jc_ys": [A("d", 0, "y.c = 1"), A("n_null", 1, "s.n IS NULL"), A("n_gt", 1, "s.n > 1"), A("coalesce", 1, "COALESCE(s.n, 0) = 0")],
+            "jc_st": [A("d", 0, "s.a = 1"), A("t_c", 1, "t.c = 1"), A("t_null", 1, "t.c IS NULL"), A("both", 1, "s.a = 1 AND t.c = 1"),
+                      A("or", 1, "s.a = 1 OR t.c = 1"), A("s_null", 1, "s.a IS NULL")],
+        })
     return Grammar(rules, depth_nts=("se", "seo", "sea", "sc", "sco", "scc", "je", "jeo", "jea", "jc", "jco", "jcc"))
 
 
 @functools.lru_cache(None)
-def queries(k: int, depth: int = 5, engine_extras: bool = False) -> tuple:
-    return exec_grammar(engine_extras).enumerate("q", k, depth)
+def queries(k: int, depth: int = 5, engine_extras: bool = False, opt_extras: bool = False) -> tuple:
+    return exec_grammar(engine_extras, opt_extras).enumerate("q", k, depth)
